@@ -373,6 +373,7 @@ _NS = "nessai/samplers/nestedsampler.py"
 _INS = "nessai/samplers/importancesampler.py"
 _FS = "nessai/flowsampler.py"
 MUTANTS = [
+    {"id": "forced-checkpoint-can-be-skipped", "file": "nessai/samplers/base.py", "old": "        if not periodic:\n            if self.history:", "new": "        if not periodic:\n            if getattr(self, \"_ck_it\", None) == self.iteration:\n                return\n            if self.history:", "expect": "returns without pickling only on the periodic path"},
     {"id": "sigalrm-unhandled", "file": _FS, "old": "                signal.signal(signal.SIGALRM, self.safe_exit)\n", "new": "", "expect": "signal.SIGALRM"},
     {"id": "handler-no-exit", "file": _FS, "old": "        sys.exit(self.exit_code)\n", "new": "        return self.exit_code\n", "expect": "handler: terminate_run"},
     {"id": "handler-wrong-exit-code", "file": _FS, "old": "        sys.exit(self.exit_code)\n", "new": "        sys.exit(signum)\n", "expect": "handler: terminate_run"},
